@@ -27,8 +27,8 @@ func (p *Program) modSets() map[*ssa.Function]map[string]bool {
 			for _, in := range b.Instrs {
 				switch x := in.(type) {
 				case *ssa.Store:
-					if _, isAlloc := x.Addr.(*ssa.Alloc); isAlloc {
-						// a store to a local cell: only matters if the cell is captured; treat as local
+					if _, isAlloc := addrRoot(x.Addr).(*ssa.Alloc); isAlloc {
+						// a store into an object allocated by this very call: invisible to the caller's facts
 						ms["local"] = true
 						continue
 					}
